@@ -1833,6 +1833,19 @@ namespace bloch::compiler {
         }
     }
 
+    namespace {
+        // Qubit handles are bound once, by the declaration that allocates them. Assigning one
+        // qubit (or qubit[]) to another would make two declarations share a simulator qubit.
+        template <typename TypeInfoT>
+        void rejectQubitAssignment(const TypeInfoT& target, int line, int column) {
+            if (target.value == ValueType::Qubit || target.className == "qubit" ||
+                target.className == "qubit[]") {
+                throw BlochError(ErrorCategory::Semantic, line, column,
+                                 "qubit values cannot be reassigned");
+            }
+        }
+    }  // namespace
+
     void SemanticAnalyser::visit(AssignmentStatement& node) {
         if (isDeclared(node.name)) {
             if (isFinal(node.name)) {
@@ -1841,6 +1854,7 @@ namespace bloch::compiler {
             }
             if (node.value) {
                 TypeInfo targetType = getVariableType(node.name);
+                rejectQubitAssignment(targetType, node.line, node.column);
                 inferDiamondTypeArguments(node.value.get(), targetType, node.line, node.column);
                 auto valType = inferTypeInfo(node.value.get());
                 if (valType.value == ValueType::Null) {
@@ -1866,6 +1880,7 @@ namespace bloch::compiler {
             recordFinalFieldAssignment(*field, node.name, node.line, node.column);
             if (node.value) {
                 TypeInfo targetType = field->type;
+                rejectQubitAssignment(targetType, node.line, node.column);
                 inferDiamondTypeArguments(node.value.get(), targetType, node.line, node.column);
                 auto valType = inferTypeInfo(node.value.get());
                 bool fieldIsArray =
@@ -2510,6 +2525,7 @@ namespace bloch::compiler {
             }
             if (node.value) {
                 TypeInfo targetType = getVariableType(node.name);
+                rejectQubitAssignment(targetType, node.line, node.column);
                 inferDiamondTypeArguments(node.value.get(), targetType, node.line, node.column);
                 auto valType = inferTypeInfo(node.value.get());
                 if (valType.value == ValueType::Null) {
@@ -2535,6 +2551,7 @@ namespace bloch::compiler {
             recordFinalFieldAssignment(*field, node.name, node.line, node.column);
             if (node.value) {
                 TypeInfo targetType = field->type;
+                rejectQubitAssignment(targetType, node.line, node.column);
                 inferDiamondTypeArguments(node.value.get(), targetType, node.line, node.column);
                 auto valType = inferTypeInfo(node.value.get());
                 bool fieldIsArray =
@@ -2616,6 +2633,7 @@ namespace bloch::compiler {
             TypeInfo targetType = field->type;
             if (!searchType.typeArgs.empty() && cls)
                 targetType = substituteTypeParams(targetType, cls->typeParams, searchType.typeArgs);
+            rejectQubitAssignment(targetType, node.line, node.column);
             inferDiamondTypeArguments(node.value.get(), targetType, node.line, node.column);
             auto valType = inferTypeInfo(node.value.get());
             bool fieldIsArray = targetType.className.size() >= 2 &&
@@ -2668,6 +2686,7 @@ namespace bloch::compiler {
         }
 
         TypeInfo elemType = collectionType.typeArgs.front();
+        rejectQubitAssignment(elemType, node.line, node.column);
         TypeInfo valType = inferTypeInfo(node.value.get());
 
         if (valType.value == ValueType::Null) {
